@@ -269,6 +269,10 @@ def event_builder__toEventReference : List String := [
   "return refs"
 ]
 
+def event_builder_type_EventBuilder : List String := [
+  "type EventBuilder struct { SenderID string `json:\"sender\"` RoomID string `json:\"room_id,omitempty\"` Type string `json:\"type\"` StateKey *string `json:\"state_key,omitempty\"` PrevEvents interface{} `json:\"prev_events\"` AuthEvents interface{} `json:\"auth_events\"` Redacts string `json:\"redacts,omitempty\"` Depth int64 `json:\"depth\"` Signature spec.RawJSON `json:\"signatures,omitempty\"` Content spec.RawJSON `json:\"content\"` Unsigned spec.RawJSON `json:\"unsigned,omitempty\"` version IRoomVersion }"
+]
+
 def event_jsonWalk_duplicateName : List String := [
   "func func(data []byte) (name string, found bool, err error)",
   "var stack []map[string]struct{}",
@@ -337,6 +341,18 @@ def event_jsonWalk_duplicateName : List String := [
   "}",
   "}",
   "return \"\", false, nil"
+]
+
+def event_type_EventValidationError : List String := [
+  "type EventValidationError struct { Message string Code int Persistable bool }"
+]
+
+def event_type_eventFields : List String := [
+  "type eventFields struct { RoomID string `json:\"room_id\"` SenderID string `json:\"sender\"` Type string `json:\"type\"` StateKey *string `json:\"state_key\"` Content spec.RawJSON `json:\"content\"` Redacts string `json:\"redacts\"` Depth int64 `json:\"depth\"` Unsigned spec.RawJSON `json:\"unsigned,omitempty\"` OriginServerTS spec.Timestamp `json:\"origin_server_ts\"` }"
+]
+
+def event_type_jsonWalk : List String := [
+  "type jsonWalk struct { decodeName func(raw []byte, escaped bool) (string, bool) checkString func(raw []byte) error skipMember func(name string) bool }"
 ]
 
 def eventversion_RoomVersionImpl_CheckCanonicalJSON : List String := [
@@ -530,6 +546,38 @@ def eventversion__StableRoomVersions : List String := [
   "return versions"
 ]
 
+def eventversion_type_EventFormat : List String := [
+  "type EventFormat int"
+]
+
+def eventversion_type_EventIDFormat : List String := [
+  "type EventIDFormat int"
+]
+
+def eventversion_type_IRoomVersion : List String := [
+  "type IRoomVersion interface { Version() RoomVersion Stable() bool StateResAlgorithm() StateResAlgorithm EventFormat() EventFormat EventIDFormat() EventIDFormat RedactEventJSON(eventJSON []byte) ([]byte, error) SignatureValidityCheck(atTS, validUntil spec.Timestamp) bool NewEventFromTrustedJSON(eventJSON []byte, redacted bool) (result PDU, err error) NewEventFromTrustedJSONWithEventID(eventID string, eventJSON []byte, redacted bool) (result PDU, err error) NewEventFromUntrustedJSON(eventJSON []byte) (result PDU, err error) NewEventBuilder() *EventBuilder NewEventBuilderFromProtoEvent(pe *ProtoEvent) *EventBuilder CheckRestrictedJoin(ctx context.Context, localServerName spec.ServerName, roomQuerier RestrictedRoomJoinQuerier, roomID spec.RoomID, senderID spec.SenderID) (string, error) RestrictedJoinServername(content []byte) (spec.ServerName, error) CheckRestrictedJoinsAllowed() error CheckKnockingAllowed(roomVer, sender, target, joinRule, prevMembership string) error CheckPowerLevelEvent(sender string, createEvent PDU, oldPowerLevels, newPowerLevels PowerLevelContent) error CheckCanonicalJSON(input []byte) error ParsePowerLevels(contentBytes []byte, c *PowerLevelContent) error CheckCreateEvent(event PDU, sender spec.UserID, knownRoomVersion KnownRoomVersionFunc) error DomainlessRoomIDs() bool PrivilegedCreators() bool }"
+]
+
+def eventversion_type_KnownRoomVersionFunc : List String := [
+  "type KnownRoomVersionFunc func(RoomVersion) bool"
+]
+
+def eventversion_type_RoomVersion : List String := [
+  "type RoomVersion string"
+]
+
+def eventversion_type_RoomVersionImpl : List String := [
+  "type RoomVersionImpl struct { ver RoomVersion stateResAlgorithm StateResAlgorithm eventFormat EventFormat eventIDFormat EventIDFormat redactionAlgorithm func(eventJSON []byte) ([]byte, error) signatureValidityCheckFunc SignatureValidityCheckFunc canonicalJSONCheck func(eventJSON []byte) error checkPowerLevelEvent func(sender string, createEvent PDU, oldPowerLevels, newPowerLevels PowerLevelContent) error parsePowerLevelsFunc func(contentBytes []byte, c *PowerLevelContent) error stable bool domainlessRoomID bool privilegedCreators bool checkRestrictedJoin func(ctx context.Context, localServerName spec.ServerName, roomQuerier RestrictedRoomJoinQuerier, roomID spec.RoomID, senderID spec.SenderID, privilegedCreators bool) (string, error) restrictedJoinServernameFunc func(content []byte) (spec.ServerName, error) checkRestrictedJoinAllowedFunc func() error checkKnockingAllowedFunc func(roomVer, sender, target, joinRule, prevMembership string) error checkCreateEvent func(e PDU, sender spec.UserID, knownRoomVersion KnownRoomVersionFunc) error newEventFromUntrustedJSONFunc func(eventJSON []byte, roomVersion IRoomVersion) (result PDU, err error) newEventFromTrustedJSONFunc func(eventJSON []byte, redacted bool, roomVersion IRoomVersion) (result PDU, err error) newEventFromTrustedJSONWithEventIDFunc func(eventID string, eventJSON []byte, redacted bool, roomVersion IRoomVersion) (result PDU, err error) }"
+]
+
+def eventversion_type_StateResAlgorithm : List String := [
+  "type StateResAlgorithm int"
+]
+
+def eventversion_type_UnsupportedRoomVersionError : List String := [
+  "type UnsupportedRoomVersionError struct{ Version RoomVersion }"
+]
+
 def spec_base64_Base64Bytes_Decode : List String := [
   "func func(str string) error",
   "var err error",
@@ -586,6 +634,10 @@ def spec_base64_Base64Bytes_Value : List String := [
   "return b64.Encode(), nil"
 ]
 
+def spec_base64_type_Base64Bytes : List String := [
+  "type Base64Bytes []byte"
+]
+
 def spec_roomid_RoomID_Domain : List String := [
   "func func() ServerName",
   "if room.isDomainless {",
@@ -640,6 +692,10 @@ def spec_roomid__parseAndValidateRoomID : List String := [
   "return roomID, nil"
 ]
 
+def spec_roomid_type_RoomID : List String := [
+  "type RoomID struct { raw string opaqueID string domain string isDomainless bool }"
+]
+
 def spec_senderid_SenderID_IsPseudoID : List String := [
   "func func() bool",
   "return !s.IsUserID()"
@@ -689,6 +745,26 @@ def spec_senderid__SenderIDFromPseudoIDKey : List String := [
 def spec_senderid__SenderIDFromUserID : List String := [
   "func func(user UserID) SenderID",
   "return SenderID(user.String())"
+]
+
+def spec_senderid_type_CreateSenderID : List String := [
+  "type CreateSenderID func(ctx context.Context, userID UserID, roomID RoomID, roomVersion string) (SenderID, ed25519.PrivateKey, error)"
+]
+
+def spec_senderid_type_SenderID : List String := [
+  "type SenderID string"
+]
+
+def spec_senderid_type_SenderIDForUser : List String := [
+  "type SenderIDForUser func(roomID RoomID, userID UserID) (*SenderID, error)"
+]
+
+def spec_senderid_type_StoreSenderIDFromPublicID : List String := [
+  "type StoreSenderIDFromPublicID func(ctx context.Context, senderID SenderID, userID string, id RoomID) error"
+]
+
+def spec_senderid_type_UserIDForSender : List String := [
+  "type UserIDForSender func(roomID RoomID, senderID SenderID) (*UserID, error)"
 ]
 
 def spec_servername__ParseAndValidateServerName : List String := [
@@ -757,6 +833,10 @@ def spec_servername__splitServerName : List String := [
   "return nameStr[:lastColon], int(port)"
 ]
 
+def spec_servername_type_ServerName : List String := [
+  "type ServerName string"
+]
+
 def spec_userid_UserID_Domain : List String := [
   "func func() ServerName",
   "return ServerName(user.domain)"
@@ -823,6 +903,10 @@ def spec_userid__parseAndValidateUserID : List String := [
   "return userID, nil"
 ]
 
-def functions : List String := ["eventV2.go:.CheckFields", "event.go:EventValidationError.Error", "event.go:.SplitID", "event.go:.checkID", "event.go:.checkRoomIDField", "event.go:.checkUntrustedEventJSON", "event.go:.duplicateJSONKey", "event.go:.jsonFieldNames", "event_builder.go:EventBuilder.AddAuthEvents", "event_builder.go:EventBuilder.Build", "event_builder.go:EventBuilder.SetContent", "event_builder.go:EventBuilder.SetUnsigned", "event_builder.go:.eventHashFromEventID", "event_builder.go:.eventReferenceFromEventID", "event_builder.go:.eventReferencesFrom", "event_builder.go:.toEventReference", "event.go:jsonWalk.duplicateName", "eventversion.go:RoomVersionImpl.CheckCanonicalJSON", "eventversion.go:RoomVersionImpl.CheckCreateEvent", "eventversion.go:RoomVersionImpl.CheckKnockingAllowed", "eventversion.go:RoomVersionImpl.CheckPowerLevelEvent", "eventversion.go:RoomVersionImpl.CheckRestrictedJoin", "eventversion.go:RoomVersionImpl.CheckRestrictedJoinsAllowed", "eventversion.go:RoomVersionImpl.DomainlessRoomIDs", "eventversion.go:RoomVersionImpl.EventFormat", "eventversion.go:RoomVersionImpl.EventIDFormat", "eventversion.go:RoomVersionImpl.NewEventBuilder", "eventversion.go:RoomVersionImpl.NewEventBuilderFromProtoEvent", "eventversion.go:RoomVersionImpl.NewEventFromTrustedJSON", "eventversion.go:RoomVersionImpl.NewEventFromTrustedJSONWithEventID", "eventversion.go:RoomVersionImpl.NewEventFromUntrustedJSON", "eventversion.go:RoomVersionImpl.ParsePowerLevels", "eventversion.go:RoomVersionImpl.PrivilegedCreators", "eventversion.go:RoomVersionImpl.RedactEventJSON", "eventversion.go:RoomVersionImpl.RestrictedJoinServername", "eventversion.go:RoomVersionImpl.SignatureValidityCheck", "eventversion.go:RoomVersionImpl.Stable", "eventversion.go:RoomVersionImpl.StateResAlgorithm", "eventversion.go:RoomVersionImpl.Version", "eventversion.go:UnsupportedRoomVersionError.Error", "eventversion.go:.GetRoomVersion", "eventversion.go:.KnownRoomVersion", "eventversion.go:.MustGetRoomVersion", "eventversion.go:.NewEventFromHeaderedJSON", "eventversion.go:.RoomVersions", "eventversion.go:.SetRoomVersion", "eventversion.go:.StableRoomVersion", "eventversion.go:.StableRoomVersions", "spec/base64.go:Base64Bytes.Decode", "spec/base64.go:Base64Bytes.Encode", "spec/base64.go:Base64Bytes.MarshalJSON", "spec/base64.go:Base64Bytes.MarshalYAML", "spec/base64.go:Base64Bytes.Scan", "spec/base64.go:Base64Bytes.UnmarshalJSON", "spec/base64.go:Base64Bytes.UnmarshalYAML", "spec/base64.go:Base64Bytes.Value", "spec/roomid.go:RoomID.Domain", "spec/roomid.go:RoomID.OpaqueID", "spec/roomid.go:RoomID.String", "spec/roomid.go:.NewRoomID", "spec/roomid.go:.parseAndValidateRoomID", "spec/senderid.go:SenderID.IsPseudoID", "spec/senderid.go:SenderID.IsUserID", "spec/senderid.go:SenderID.RawBytes", "spec/senderid.go:SenderID.ToPseudoID", "spec/senderid.go:SenderID.ToUserID", "spec/senderid.go:.SenderIDFromPseudoIDKey", "spec/senderid.go:.SenderIDFromUserID", "spec/servername.go:.ParseAndValidateServerName", "spec/servername.go:.isDNSNameChar", "spec/servername.go:.splitServerName", "spec/userid.go:UserID.Domain", "spec/userid.go:UserID.Local", "spec/userid.go:UserID.String", "spec/userid.go:.NewUserID", "spec/userid.go:.NewUserIDOrPanic", "spec/userid.go:.historicallyValidCharacters", "spec/userid.go:.parseAndValidateUserID"]
+def spec_userid_type_UserID : List String := [
+  "type UserID struct { raw string local string domain string }"
+]
+
+def functions : List String := ["eventV2.go:.CheckFields", "event.go:EventValidationError.Error", "event.go:.SplitID", "event.go:.checkID", "event.go:.checkRoomIDField", "event.go:.checkUntrustedEventJSON", "event.go:.duplicateJSONKey", "event.go:.jsonFieldNames", "event_builder.go:EventBuilder.AddAuthEvents", "event_builder.go:EventBuilder.Build", "event_builder.go:EventBuilder.SetContent", "event_builder.go:EventBuilder.SetUnsigned", "event_builder.go:.eventHashFromEventID", "event_builder.go:.eventReferenceFromEventID", "event_builder.go:.eventReferencesFrom", "event_builder.go:.toEventReference", "event_builder.go:type EventBuilder", "event.go:jsonWalk.duplicateName", "event.go:type EventValidationError", "event.go:type eventFields", "event.go:type jsonWalk", "eventversion.go:RoomVersionImpl.CheckCanonicalJSON", "eventversion.go:RoomVersionImpl.CheckCreateEvent", "eventversion.go:RoomVersionImpl.CheckKnockingAllowed", "eventversion.go:RoomVersionImpl.CheckPowerLevelEvent", "eventversion.go:RoomVersionImpl.CheckRestrictedJoin", "eventversion.go:RoomVersionImpl.CheckRestrictedJoinsAllowed", "eventversion.go:RoomVersionImpl.DomainlessRoomIDs", "eventversion.go:RoomVersionImpl.EventFormat", "eventversion.go:RoomVersionImpl.EventIDFormat", "eventversion.go:RoomVersionImpl.NewEventBuilder", "eventversion.go:RoomVersionImpl.NewEventBuilderFromProtoEvent", "eventversion.go:RoomVersionImpl.NewEventFromTrustedJSON", "eventversion.go:RoomVersionImpl.NewEventFromTrustedJSONWithEventID", "eventversion.go:RoomVersionImpl.NewEventFromUntrustedJSON", "eventversion.go:RoomVersionImpl.ParsePowerLevels", "eventversion.go:RoomVersionImpl.PrivilegedCreators", "eventversion.go:RoomVersionImpl.RedactEventJSON", "eventversion.go:RoomVersionImpl.RestrictedJoinServername", "eventversion.go:RoomVersionImpl.SignatureValidityCheck", "eventversion.go:RoomVersionImpl.Stable", "eventversion.go:RoomVersionImpl.StateResAlgorithm", "eventversion.go:RoomVersionImpl.Version", "eventversion.go:UnsupportedRoomVersionError.Error", "eventversion.go:.GetRoomVersion", "eventversion.go:.KnownRoomVersion", "eventversion.go:.MustGetRoomVersion", "eventversion.go:.NewEventFromHeaderedJSON", "eventversion.go:.RoomVersions", "eventversion.go:.SetRoomVersion", "eventversion.go:.StableRoomVersion", "eventversion.go:.StableRoomVersions", "eventversion.go:type EventFormat", "eventversion.go:type EventIDFormat", "eventversion.go:type IRoomVersion", "eventversion.go:type KnownRoomVersionFunc", "eventversion.go:type RoomVersion", "eventversion.go:type RoomVersionImpl", "eventversion.go:type StateResAlgorithm", "eventversion.go:type UnsupportedRoomVersionError", "spec/base64.go:Base64Bytes.Decode", "spec/base64.go:Base64Bytes.Encode", "spec/base64.go:Base64Bytes.MarshalJSON", "spec/base64.go:Base64Bytes.MarshalYAML", "spec/base64.go:Base64Bytes.Scan", "spec/base64.go:Base64Bytes.UnmarshalJSON", "spec/base64.go:Base64Bytes.UnmarshalYAML", "spec/base64.go:Base64Bytes.Value", "spec/base64.go:type Base64Bytes", "spec/roomid.go:RoomID.Domain", "spec/roomid.go:RoomID.OpaqueID", "spec/roomid.go:RoomID.String", "spec/roomid.go:.NewRoomID", "spec/roomid.go:.parseAndValidateRoomID", "spec/roomid.go:type RoomID", "spec/senderid.go:SenderID.IsPseudoID", "spec/senderid.go:SenderID.IsUserID", "spec/senderid.go:SenderID.RawBytes", "spec/senderid.go:SenderID.ToPseudoID", "spec/senderid.go:SenderID.ToUserID", "spec/senderid.go:.SenderIDFromPseudoIDKey", "spec/senderid.go:.SenderIDFromUserID", "spec/senderid.go:type CreateSenderID", "spec/senderid.go:type SenderID", "spec/senderid.go:type SenderIDForUser", "spec/senderid.go:type StoreSenderIDFromPublicID", "spec/senderid.go:type UserIDForSender", "spec/servername.go:.ParseAndValidateServerName", "spec/servername.go:.isDNSNameChar", "spec/servername.go:.splitServerName", "spec/servername.go:type ServerName", "spec/userid.go:UserID.Domain", "spec/userid.go:UserID.Local", "spec/userid.go:UserID.String", "spec/userid.go:.NewUserID", "spec/userid.go:.NewUserIDOrPanic", "spec/userid.go:.historicallyValidCharacters", "spec/userid.go:.parseAndValidateUserID", "spec/userid.go:type UserID"]
 
 end VPins.C17
